@@ -258,6 +258,23 @@ type rng struct {
 	lo, hi uintptr
 	by     string // who unmapped it
 	d      *mmap.Data
+	file   string
+}
+
+// Locate maps an address inside a (live or poisoned) file mapping to the
+// file name and offset.
+func Locate(addr uintptr) (file string, off uint32, ok bool) {
+	for _, r := range live {
+		if addr >= r.lo && addr < r.hi {
+			return r.file, uint32(addr - r.lo), true
+		}
+	}
+	for _, r := range dead {
+		if addr >= r.lo && addr < r.hi {
+			return r.file, uint32(addr - r.lo), true
+		}
+	}
+	return "", 0, false
 }
 
 var (
@@ -273,12 +290,14 @@ func Mmap(f *os.File) (*mmap.Data, error) {
 		return nil, err
 	}
 	d, err := mmap.Mmap(f)
-	if err == nil && len(d.Data) > 0 && sched.Active() {
+	if err == nil && len(d.Data) > 0 {
 		lo := uintptr(unsafe.Pointer(&d.Data[0]))
 		mu.Lock()
-		live = append(live, rng{lo: lo, hi: lo + uintptr(len(d.Data)), d: d})
+		live = append(live, rng{lo: lo, hi: lo + uintptr(len(d.Data)), d: d, file: f.Name()})
 		mu.Unlock()
-		Maps++
+		if sched.Active() {
+			Maps++
+		}
 	}
 	return d, err
 }
@@ -292,8 +311,10 @@ func Munmap(d *mmap.Data) error {
 	}
 	lo := uintptr(unsafe.Pointer(&d.Data[0]))
 	mu.Lock()
+	file := ""
 	for i, r := range live {
 		if r.lo == lo {
+			file = r.file
 			live = append(live[:i], live[i+1:]...)
 			break
 		}
@@ -302,7 +323,7 @@ func Munmap(d *mmap.Data) error {
 		mu.Unlock()
 		return mmap.Munmap(d)
 	}
-	dead = append(dead, rng{lo: lo, hi: lo + uintptr(len(d.Data)), by: sched.CallerSite(1), d: &mmap.Data{Data: d.Data}})
+	dead = append(dead, rng{lo: lo, hi: lo + uintptr(len(d.Data)), by: sched.CallerSite(1), d: &mmap.Data{Data: d.Data}, file: file})
 	mu.Unlock()
 	Unmaps++
 	return nil
@@ -332,6 +353,9 @@ func ReleaseDead() {
 	}
 	live = live[:0]
 }
+
+// IsMapped reports whether addr lies in a live or poisoned file mapping.
+func IsMapped(addr uintptr) bool { _, _, ok := Locate(addr); return ok }
 
 // DeadCount is the number of poisoned ranges.
 func DeadCount() int { return len(dead) }
